@@ -47,7 +47,6 @@ Qed.
 Section Gen.
   Variable ct : ctable.
   Hypothesis Hflat : flat_table ct.
-  Hypothesis Hninv : inval_spec ct.
   Variable fuel0 : nat.
   Notation rec := (exec ct fuel0).
   Notation Inv := (Inv ct).
@@ -70,11 +69,11 @@ Section Gen.
 
   (* mutate_attr(..., inplace=True) with any force / skip flags, keeping a frame *)
   Theorem mutate_attr_inplace_gen l a v tc force skip F :
-    xstable F ->
+    xstable F -> (skip = false -> inval_spec ct) ->
     T (fun h => (Inv h /\ F h) /\ storable l a v h /\ (tc = false -> conforms_at ct l a v h))
       (mutate_attr ct rec l a v true tc force skip) (fun _ h => Inv h /\ F h) (fun h => Inv h /\ F h).
   Proof.
-    intros [SFc SF]. unfold mutate_attr. destruct (is_sentinel v); [apply T_ret; tauto|].
+    intros [SFc SF] Hiv. unfold mutate_attr. destruct (is_sentinel v); [apply T_ret; tauto|].
     set (P := fun h => (Inv h /\ F h) /\ storable l a v h /\ (tc = false -> conforms_at ct l a v h)).
     assert (PE : forall h, P h -> Inv h /\ F h) by (unfold P; tauto).
     eapply T_bind; [apply T_read_inst; exact PE|]. intros [cl d]. cbn [fst snd].
@@ -106,7 +105,7 @@ Section Gen.
     eapply T_bind with (Q := fun _ h => Inv h /\ F h); [|intros ?; apply T_ret; auto].
     apply T_thawed_false; [tauto|].
     eapply T_bind; [apply raw_setattr_frame; auto|]. intros ?.
-    destruct skip; [apply T_ret; auto|apply (Hninv fuel0 l a F (conj SFc SF))].
+    destruct skip; [apply T_ret; auto|apply (Hiv eq_refl fuel0 l a F (conj SFc SF))].
   Qed.
 End Gen.
 
@@ -139,7 +138,7 @@ Section SetAttrGen.
                             (fun _ h => (Inv h /\ F h) /\ is_inst l cl h)
                             (fun h => (Inv h /\ F h) /\ is_inst l cl h)).
     { intros value. eapply T_conseq;
-        [apply (mutate_attr_inplace_gen ct Hflat Hninv fuel l a value true force skip G SG)| | |exact GE].
+        [apply (mutate_attr_inplace_gen ct Hflat fuel l a value true force skip G SG (fun _ => Hninv))| | |exact GE].
       - intros h [[I1 G1] L1]. split; [split; auto|]. split; [left; exact L1|discriminate].
       - intros r h H. apply GE. exact H. }
     destruct (lookup_attr k a) as [sp|] eqn:Ha.
@@ -224,13 +223,14 @@ Section Defaults.
   (* del obj.a / the body of reset_<a>, in place, on a leaf attribute of an instance of class cl;
      the frame survives failures *)
   Lemma delattr_inv fuel l cl k a skip F :
+    (skip = false -> inval_spec ct) ->
     xstable F -> lookup_cls ct cl = Some k ->
     (forall sp, lookup_attr k a = Some sp -> leaf_attr sp /\ default_ok k sp) ->
     T (fun h => (Inv h /\ F h) /\ is_inst l cl h)
       (delattr_ ct (exec ct fuel) l a false skip) (fun _ h => (Inv h /\ F h) /\ is_inst l cl h)
       (fun h => (Inv h /\ F h) /\ is_inst l cl h).
   Proof.
-    intros SF Hk Hla. pose proof SF as [SFc SFi]. unfold delattr_.
+    intros Hiv SF Hk Hla. pose proof SF as [SFc SFi]. unfold delattr_.
     eapply T_bind; [apply T_read_inst; tauto|]. intros [cl0 d0]. cbn [fst snd].
     eapply T_bind; [apply T_cls_of; tauto|]. intros k0.
     intros s [[[[I Fh] [d N]] N0] Hk0].
@@ -248,7 +248,7 @@ Section Defaults.
         split; [now apply Inv_delete|]. eapply (proj2 SG); eauto.
       - intros ?. eapply T_bind with (Q := fun _ h => IF ct G h).
         + destruct skip; [apply T_ret; auto|].
-          eapply T_conseq; [apply (Hninv fuel l a G SG)|auto|auto|exact GE].
+          eapply T_conseq; [apply (Hiv eq_refl fuel l a G SG)|auto|auto|exact GE].
         + intros ?. apply T_ret. exact GE. }
     refine ((_ : T (IF ct G) _ (fun _ h => (Inv h /\ F h) /\ is_inst l cl h)
                    (fun h => (Inv h /\ F h) /\ is_inst l cl h)) s _);
@@ -265,19 +265,20 @@ Section Defaults.
           [apply (prepare_attr_value_any ct Hflat fuel sp l dv G Hl (proj1 SG))
           | auto | auto | exact GE].
       + intros value. eapply T_conseq;
-          [apply (mutate_attr_inplace_gen ct Hflat Hninv fuel l a value true true skip G SG)| | |exact GE].
+          [apply (mutate_attr_inplace_gen ct Hflat fuel l a value true true skip G SG Hiv)| | |exact GE].
         * intros h [[I1 G1] L1]. split; [split; auto|]. split; [left; exact L1|discriminate].
         * intros r h H. apply GE. exact H.
   Qed.
 
   Lemma exec_delattr_inv fuel l cl k a skip F :
+    (skip = false -> inval_spec ct) ->
     xstable F -> lookup_cls ct cl = Some k ->
     (forall sp, lookup_attr k a = Some sp -> leaf_attr sp /\ default_ok k sp) ->
     T (fun h => (Inv h /\ F h) /\ is_inst l cl h)
       (exec ct fuel (KDelAttr l a false skip)) (fun _ h => (Inv h /\ F h) /\ is_inst l cl h)
       (fun h => (Inv h /\ F h) /\ is_inst l cl h).
   Proof.
-    intros SF Hk Hla. destruct fuel as [|f]; [apply T_fail; tauto|]. rewrite exec_S. now apply (delattr_inv f l cl k).
+    intros Hiv SF Hk Hla. destruct fuel as [|f]; [apply T_fail; tauto|]. rewrite exec_S. now apply (delattr_inv f l cl k).
   Qed.
 
   (* del obj.a *)
@@ -290,7 +291,7 @@ Section Defaults.
     intros I R. unfold step.
     destruct (nth x roots VNone) as [| | | | | | | |l] eqn:Er; try exact I.
     cbn [loc_of]. rewrite bind_ret_l. destruct (R l eq_refl) as (cl & k & Hi & Hk & Hla).
-    eapply T_run_then; [apply (exec_delattr_inv XFUEL l cl k a false (fun _ => True) xstable_true Hk Hla)| | |]; auto.
+    eapply T_run_then; [apply (exec_delattr_inv XFUEL l cl k a false (fun _ => True) (fun _ => Hninv) xstable_true Hk Hla)| | |]; auto.
     - cbv beta. auto.
     - cbv beta. tauto.
     - cbv beta. tauto.
@@ -312,7 +313,7 @@ Section Defaults.
                            (E := fun h => (Inv h /\ True) /\ is_inst l cl h);
       [|cbv beta; auto|cbv beta; tauto|cbv beta; tauto].
     apply T_thawed_false; [tauto|].
-    apply (exec_delattr_inv XFUEL l cl k a false (fun _ => True) xstable_true Hk Hla).
+    apply (exec_delattr_inv XFUEL l cl k a false (fun _ => True) (fun _ => Hninv) xstable_true Hk Hla).
   Qed.
 End Defaults.
 
@@ -519,7 +520,7 @@ Section Resets.
     T (PI l cl) (rec (KDelAttr l a false false)) (fun _ h => PI l cl h) (PI l cl).
   Proof.
     intros Hk Hla. eapply T_conseq;
-      [apply (exec_delattr_inv ct Hflat Hninv XFUEL l cl k a false (fun _ => True) xstable_true Hk Hla)| | |];
+      [apply (exec_delattr_inv ct Hflat XFUEL l cl k a false (fun _ => True) (fun _ => Hninv) xstable_true Hk Hla)| | |];
       unfold PI; tauto.
   Qed.
 
